@@ -1054,3 +1054,73 @@ Lemma init_fresh o w cs bal :
   pending_owner (init o w cs bal) = None /\ pending_worker (init o w cs bal) = None /\
   pending_term (init o w cs bal) = None.
 Proof. repeat split. Qed.
+
+(* ------------------------------------------------------------------------------------------ *)
+(* a pending handover is withdrawn (revoked / replaced) only by the owner; otherwise it stays, gains
+   approvals, or completes.  A pending worker key cannot be withdrawn at all. *)
+Theorem only_owner_withdraws_handover st o st' code :
+  step st o = (st', code) ->
+  (forall p, pending_owner st = Some p ->
+     pending_owner st' = Some p \/ (exists e new, o = ChangeOwner (owner st) e new true) \/
+     (owner st' = p /\ exists e, o = ChangeOwner p e p true)) /\
+  (forall n eff, pending_worker st = Some (n, eff) ->
+     (pending_worker st' = Some (n, eff) /\ worker st' = worker st) \/
+     (pending_worker st' = None /\ worker st' = n /\ eff <= epoch_of o)) /\
+  (forall pt, pending_term st = Some pt ->
+     (exists pt', pending_term st' = Some pt' /\ pt_extends pt pt') \/
+     (exists e nb q x, o = ChangeBeneficiary (owner st) e (Some nb) q x) \/
+     (pending_term st' = None /\ beneficiary st' = pb_new pt /\
+      quota (bterm st') = pb_quota pt /\ expiration (bterm st') = pb_exp pt) \/
+     (pending_term st' = None /\ owner st' <> owner st /\ pending_owner st = Some (owner st'))).
+Proof.
+  intros H. split; [|split].
+  - intros p Hp. destruct (optZ_dec (pending_owner st') (pending_owner st)) as [Heq|Hne].
+    + left. congruence.
+    + destruct (pending_owner_step _ _ _ _ H Hne) as (_ & [(e & new & Ho & _)|(e & Ho & Hp' & _)]).
+      * right; left. eauto.
+      * right; right. rewrite Hp in Hp'. injection Hp' as Hpp.
+        split; [congruence|]. exists e. rewrite Hpp. assumption.
+  - intros n eff Hp. destruct (optZZ_dec (pending_worker st') (pending_worker st)) as [Heq|Hne].
+    + left. split; [congruence|].
+      destruct (Z.eq_dec (worker st') (worker st)) as [|Hw]; [assumption|].
+      destruct (worker_step _ _ _ _ H Hw) as (_ & eff' & _ & _ & Hn & _). congruence.
+    + destruct (pending_worker_step _ _ _ _ H Hne)
+        as (_ & [(n' & eff' & Hp' & Hn & Hw & Hle & _)|(Hp' & _)]); [|congruence].
+      right. rewrite Hp in Hp'. injection Hp' as Hn1 Hn2. subst n' eff'. auto.
+  - intros pt Hp. destruct (pending_term_fate _ _ _ _ _ H Hp)
+      as [Hs|(_ & [(pt' & c & e & Hp' & Hext & _)|[Hrep|[(c & e & _ & _ & _ & _ & Hn & Hb & Hq & Hx)|(e & _ & Hno & Hpo & Hn)]]])].
+    + left. exists pt. split; [assumption|]. unfold pt_extends. repeat split; auto.
+    + left. eauto.
+    + right; left. assumption.
+    + right; right; left. auto.
+    + right; right; right. auto.
+Qed.
+
+(* an accepted withdrawal is made by the owner or the beneficiary, pays at most the request, the
+   balance and - for a beneficiary other than the owner - what is left of the quota, and advances
+   used_quota by exactly the amount paid; nothing else changes *)
+Theorem withdraw_within_quota st c e req st' :
+  step st (Withdraw c e req) = (st', OK) ->
+  (c = owner st \/ c = beneficiary st) /\
+  let paid := funds st - funds st' in
+  0 <= paid <= req /\ paid <= funds st /\
+  (beneficiary st <> owner st ->
+     0 < available (bterm st) e /\ paid <= available (bterm st) e /\
+     used (bterm st') = used (bterm st) + paid) /\
+  (beneficiary st = owner st -> bterm st' = bterm st) /\
+  owner st' = owner st /\ pending_owner st' = pending_owner st /\ worker st' = worker st /\
+  pending_worker st' = pending_worker st /\ controls st' = controls st /\
+  beneficiary st' = beneficiary st /\ quota (bterm st') = quota (bterm st) /\
+  expiration (bterm st') = expiration (bterm st) /\ pending_term st' = pending_term st.
+Proof.
+  intros H. apply step_accepts_iff in H. inversion H; subst.
+  match goal with H1 : 0 <= req, H2 : 0 <= funds st, H3 : _ \/ 0 < available _ _ |- _ =>
+    pose proof (wamount_bounds st e req H1 H2 H3) as (Hb1 & Hb2 & Hb3);
+    rename H3 into Hav end.
+  split; [assumption|]. unfold withdrawn. fields.
+  replace (funds st - (funds st - wamount st e req)) with (wamount st e req) by lia.
+  destruct (beneficiary st =? owner st) eqn:Eb; zb; fields; repeat split; auto; try lia;
+    try (intros; contradiction).
+  - intros _. destruct Hav; [contradiction|assumption].
+  - intros _. apply Hb3. assumption.
+Qed.
